@@ -15,7 +15,7 @@ import subprocess
 import sys
 import time
 
-REPO = os.environ.get("CHERAB_REPO", "/repo")
+REPO = os.environ.get("VERIF_REPO", "/repo")
 VERIF = os.path.dirname(os.path.dirname(os.path.abspath(__file__)))
 STATE = os.path.join(VERIF, ".build_state.json")
 LOCK = "/tmp/cherab_verif_build.lock"
@@ -55,6 +55,19 @@ def scan_so(cur):
 def main():
     force = "--force" in sys.argv
     t0 = time.time()
+    if os.path.realpath(REPO) != "/repo":
+        # development aid: a scratch worktree prepared by mc/worktree.sh (timestamps are under our control there)
+        env = dict(os.environ)
+        env["CHERAB_NCPU"] = "8"
+        env.pop("PYTHONHASHSEED", None)
+        p = subprocess.run([os.path.join(REPO, "wtpy"), "setup.py", "build_ext", "-j8", "--inplace"], cwd=REPO, env=env,
+                           stdout=subprocess.PIPE, stderr=subprocess.STDOUT, text=True)
+        if p.returncode != 0:
+            sys.stdout.write(p.stdout[-6000:])
+            print("[build] FAILED in worktree %s" % REPO)
+            return 2
+        print("[build] worktree %s built (%.1fs)" % (REPO, time.time() - t0))
+        return 0
     with open(LOCK, "w") as lk:
         fcntl.flock(lk, fcntl.LOCK_EX)
         cur = scan()
